@@ -8,11 +8,13 @@
    conditions (C13), tagged unions (C12), dataclass binding (C15) in the respective files.
    The rules are assembled into ONE membership relation [member] (Lemmas/Denotes.v, a
    specification by recursion on the type that never mentions the loops of the fast pass) for
-   the structural fragment -- Any, None, scalars, literals, the four sequence classes, fixed
-   tuples, mappings, struct literal types, unions, conditions, closed under nesting -- and
+   EVERY type of the model's grammar -- Any, None, scalars, literals, the four sequence classes,
+   fixed tuples, mappings, struct literal types, unions, conditions, enums, dataclasses in both
+   layouts, tagged unions in the three layouts, closed under nesting -- and
    [C01_accepts_exactly_the_members] says the fast pass accepts exactly its members and returns
-   exactly their image.  PARTIAL: enums, dataclasses and tagged unions are outside [structural];
-   their rules stay the separate theorems of C02 / C12 / C15. *)
+   exactly their image.  PARTIAL only in what the model leaves out of the grammar: the library
+   scalar types (Decimal, dates, paths, patterns: monitors and the correspondence of the 'std'
+   kinds), NestedSequence / ValueOrList and custom converters (C18). *)
 From Coq Require Import ZArith List Bool String.
 Require Import Base.Outcome Model.Values Model.Vocab Model.Types Model.Conv Gen.GenGates.
 Require Import Lemmas.AgreeLemmas Lemmas.AgreeThm Lemmas.StrictLemmas Lemmas.TypedLemmas Lemmas.Denotes.
@@ -54,34 +56,66 @@ Theorem C01_accepts_variadic_tuple : forall e v x,
 Proof. exact accepts_vtuple. Qed.
 Print Assumptions C01_accepts_list.
 
-(* the rules assembled: on the structural fragment, at any nesting, for every value and every image *)
-Theorem C01_accepts_exactly_the_members : forall t, structural t ->
-  forall v x, tc t v = Ok x <-> member t v x.
-Proof. exact tc_exactly_member. Qed.
+(* the rules assembled: for every type of the grammar, at any nesting, for every value and every image *)
+Theorem C01_accepts_exactly_the_members : forall t v x, tc t v = Ok x <-> member t v x.
+Proof. exact tc_is_member. Qed.
 Print Assumptions C01_accepts_exactly_the_members.
-(* ... hence from_data on a well-formed structural type: the image of a member, ConvertError otherwise *)
+(* ... hence from_data on a well-formed type: the image of a member, ConvertError otherwise *)
 Theorem C01_members_convert_and_non_members_are_refused : forall t v,
-  structural t -> wf_ty t ->
+  wf_ty t ->
   (exists x, member t v x /\ convert t v = COk x) \/ ((forall x, ~ member t v x) /\ exists e, convert t v = CErr e).
 Proof.
-  intros t v S WF. destruct (convert_total t v WF) as [[x H]|[e H]].
-  - left. exists x. split; [|exact H]. apply (tc_exactly_member t S).
+  intros t v WF. destruct (convert_total t v WF) as [[x H]|[e H]].
+  - left. exists x. split; [|exact H]. apply tc_is_member.
     unfold convert, convert_with in H. destruct (tc t v) as [y| |z]; try discriminate.
     + now inversion H.
     + destruct (ce t v); discriminate.
-  - right. split; [|eauto]. intros x M. apply (tc_exactly_member t S) in M.
+  - right. split; [|eauto]. intros x M. apply tc_is_member in M.
     unfold convert, convert_with in H. rewrite M in H. discriminate.
 Qed.
 Print Assumptions C01_members_convert_and_non_members_are_refused.
-Theorem C01_image_is_a_function_of_type_and_value : forall t, structural t ->
-  forall v x y, member t v x -> member t v y -> x = y.
-Proof. exact member_functional. Qed.
-Theorem C01_optional : forall t v x, structural t ->
+Theorem C01_image_is_a_function_of_type_and_value : forall t v x y, member t v x -> member t v y -> x = y.
+Proof. exact member_is_functional. Qed.
+Theorem C01_optional : forall t v x,
   member (TUnion [t; TNone]) v x <-> member t v x \/ (tc t v = Reject /\ v = VNone /\ x = VNone).
-Proof. exact member_optional. Qed.
+Proof. intros t v x. apply member_optional. apply all_structural. Qed.
 Example C01_member_example :
   structural denotes_example_ty /\
   member denotes_example_ty (VList [VTuple [VInt 1; VNone]; VList [VInt 2; VStr "a"]])
                             (VList [VTuple [VInt 1; VNone]; VTuple [VInt 2; VStr "a"]]) /\
   (forall x, ~ member denotes_example_ty (VList [VTuple [VStr "1"; VNone]]) x).
 Proof. exact (conj denotes_example_structural (conj denotes_example_member denotes_example_non_member)). Qed.
+
+(* an enum: the data converted at the members' value types, then the FIRST member equal to it in kind and value *)
+Theorem C01_enum_membership : forall n members v x,
+  member (TEnum n members) v x <->
+  exists y, leftmost (fun h => head_member h v y) (fun h => tc_head h v = Reject) (value_types members) /\
+            hashable y = true /\
+            exists mname mval, find (fun m => lit_match y (snd m)) members = Some (mname, mval) /\ x = VEnum n mname mval.
+Proof. intros. reflexivity. Qed.
+Example C01_enum_example :
+  structural denotes_enum_ty /\
+  member denotes_enum_ty (VList [VInt 1; VStr "g"]) (VList [VEnum "Color" "RED" (VInt 1); VEnum "Color" "GREEN" (VStr "g")]) /\
+  (forall x, ~ member denotes_enum_ty (VList [VStr "zz"]) x).
+Proof. exact (conj denotes_enum_structural (conj denotes_enum_member denotes_enum_non_member)). Qed.
+
+(* dataclasses: both layouts, and what is NOT a member (two keys for one field, a required field absent, a key for an
+   init=False field, one element too many) *)
+Example C01_dataclass_example : forall x,
+  member denotes_class_ty (VDict [(VStr "A", VInt 1)])
+         (VInst "P" [("note"%string, VStr "n"); ("a"%string, VInt 1); ("b"%string, VStr "d")] ["a"%string]) /\
+  member denotes_class_ty (VList [VInt 1; VStr "x"])
+         (VInst "P" [("note"%string, VStr "n"); ("a"%string, VInt 1); ("b"%string, VStr "x")] ["a"%string; "b"%string]) /\
+  ~ member denotes_class_ty (VDict [(VStr "a", VInt 1); (VStr "A", VInt 2)]) x /\
+  ~ member denotes_class_ty (VDict [(VStr "b", VStr "x")]) x /\
+  ~ member denotes_class_ty (VDict [(VStr "a", VInt 1); (VStr "note", VStr "m")]) x /\
+  ~ member denotes_class_ty (VList [VInt 1; VStr "x"; VStr "y"]) x.
+Proof. intros x. exact (conj denotes_class_member_mapping (conj denotes_class_member_sequence (denotes_class_non_members x))). Qed.
+(* tagged unions: the variant is selected by the kind AND value of the tag (the shape of seed C12h) *)
+Example C01_tagged_example : forall x,
+  member denotes_tagged_ty (VDict [(VStr "t", VBool false); (VStr "c", VDict [(VStr "x", VInt 5)])])
+         (VInst "Off" [("x"%string, VInt 5); ("kind"%string, VBool false)] ["x"%string]) /\
+  ~ member denotes_tagged_ty (VDict [(VStr "t", VBool true); (VStr "c", VDict [(VStr "x", VInt 5)])]) x /\
+  ~ member denotes_tagged_ty (VDict [(VStr "t", VInt 0); (VStr "c", VDict [(VStr "x", VInt 5)])]) x /\
+  ~ member denotes_tagged_ty (VDict [(VStr "t", VInt 1)]) x.
+Proof. intros x. exact (conj denotes_tagged_member (denotes_tagged_non_members x)). Qed.
